@@ -11,7 +11,7 @@ Extraction "jlsmodel_ext"
   BinInt.Z.add BinInt.Z.opp BinInt.Z.of_N BinInt.Z.to_N BinNat.N.add BinNat.N.mul BinNat.N.of_nat BinNat.N.to_nat
   CrcDefs.crc_spec CrcDefs.crc32c CrcDefs.crc_slice8 CrcDefs.crc_hw CrcDefs.crc_hdr_hw CrcDefs.crc_hdr_slice8
   Spec.wstep Spec.run_spec Spec.spec_of Spec.content0 Spec.rd_sources Spec.rd_signals Spec.rd_offset Spec.rd_length
-  Spec.rd_window Spec.anno_seek_range Spec.utc_from Spec.find_sig Spec.str_read Spec.pack
+  Spec.rd_window Spec.anno_seek_range Spec.utc_from Spec.find_sig Spec.str_read Spec.pack Spec.stats_windows
   Qreduction.Qred
   StatsQ.stats_reset StatsQ.stats_compute_f64 StatsQ.stats_compute_f32 StatsQ.stats_add StatsQ.stats_add_list
   StatsQ.stats_var StatsQ.stats_copy_store StatsQ.stats_combine_store StatsQ.stats_combine StatsQ.stats_of
